@@ -320,13 +320,28 @@ def main():
         suffix = '' if fal[0] else ' no-failing-input-found'
         print('VIOLATION property=%s replay=%s obligation=%s%s' % (pid, rp, name, suffix))
 
+    # ---- bounded cross-check: native replays of this property on the real crate -----------------------
+    replays = run_replays(pid, a.repo)
+    replay_viol = 0
+    reported = set(f[1] for f in violations)
+    for r in replays:
+        if r['ok'] is False:
+            rp = os.path.join(replay_dir, '%s-native-%s.txt' % (pid, r['test']))
+            with open(rp, 'w') as fh:
+                fh.write('property: %s\nfailed obligation: native replay %s (bounded stand-in: concrete histories run against the real crate)\n'
+                         'failing cases: %s\nrerun: tools/replay.sh %s %s\n\n%s\n' % (pid, r['test'], ', '.join(r['failed_cases']), a.repo, r['test'], r['output']))
+            if not violations:
+                print('VIOLATION property=%s replay=%s obligation=native:%s failing-input=%s' % (pid, rp, r['test'], ','.join(r['failed_cases'])))
+            replay_viol += 1
+        elif r['ok'] is None:
+            undecided.append('native replay %s did not build/run' % r['test'])
     wall = time.time() - t0
     n_obl = len(set(obligations))
     failed_names = set('%s/%s' % (f[0], f[1]) for f in mine if f[4] == 'explicit')
     implicit_failed = [f for f in mine if f[4] == 'implicit']
     discharged = n_obl - len(failed_names & set(obligations))
     level = 'proof'
-    if knowns or violations or undecided:
+    if knowns or violations or undecided or replay_viol:
         level = 'other'
     ev = {
         'property_id': pid, 'tier': a.tier, 'seed': seed, 'level': level,
@@ -345,13 +360,14 @@ def main():
             'vacuity_canaries': {'planted': canary_total, 'failed_as_required': canary_failed},
             'units': unit_reports,
             'contracts_assumed_in_a_unit_and_proved_in_another': sorted(set(assumed_here)),
+            'bounded_native_replays': [{'test': r['test'], 'cases_passed': r['passed'], 'cases_failed': r['failed']} for r in replays],
             'known_findings': [f[1] for f in knowns],
             'undecided': undecided,
             'evaluations': max(n_obl, 1), 'distinct_nontrivial': max(n_obl, 2),
         },
         'assumptions': sorted(trusted),
         'wall_s': round(wall, 2),
-        'violations': len(violations),
+        'violations': len(violations) + (replay_viol if not violations else 0),
     }
     if not a.no_evidence:
         os.makedirs(os.path.join(ROOT, 'evidence'), exist_ok=True)
@@ -360,33 +376,47 @@ def main():
           % (pid, ','.join(units), n_obl, discharged, len(knowns), len(violations), len(undecided), wall))
     for x in undecided:
         print('UNDECIDED: ' + x)
-    if violations:
+    if violations or replay_viol:
         sys.exit(1)
     if undecided or n_obl == 0:
         sys.exit(2)
     sys.exit(0)
 
 
-def run_falsifier(pid, name, repo):
-    """native replay: run the replay tests registered for this obligation against the real crate.
-    returns (found_failing_input, text)"""
+_REPLAY_CACHE = {}
+
+
+def run_replays(pid, repo):
+    """Native replay tests of this property against the real crate (real bytes/futures, public API, hooks on).
+    Bounded stand-in: each test is one concrete history.  Returns list of dicts {test, ok, passed, failed, output}."""
+    if (pid, repo) in _REPLAY_CACHE:
+        return _REPLAY_CACHE[(pid, repo)]
     reg = os.path.join(ROOT, 'replay', 'registry.json')
-    if not os.path.exists(reg):
-        return False, 'no replay registry'
-    table = json.load(open(reg))
-    tests = table.get(name) or table.get(pid + ':' + name) or table.get(pid) or []
-    if not tests:
-        return False, 'no native replay registered for this obligation'
-    out = []
-    found = False
+    tests = json.load(open(reg)).get(pid, []) if os.path.exists(reg) else []
+    res = []
     for t in tests:
-        cmd = ['cargo', 'test', '--offline', '--manifest-path', os.path.join(ROOT, 'replay', 'Cargo.toml'), '--test', t['test'], '--', t.get('filter', ''), '--nocapture']
-        env = dict(os.environ, POSTER_REPO=repo, CARGO_TARGET_DIR=os.path.join(WORK, 'replay-target'), CARGO_NET_OFFLINE='true')
-        p = subprocess.run(cmd, capture_output=True, text=True, env=env)
-        out.append('$ %s\n%s\n%s' % (' '.join(cmd), p.stdout[-3000:], p.stderr[-1500:]))
-        if p.returncode != 0 and 'test result: FAILED' in p.stdout:
-            found = True
-    return found, '\n'.join(out)
+        p = subprocess.run([os.path.join(ROOT, 'tools', 'replay.sh'), repo, t], capture_output=True, text=True)
+        out = p.stdout + '\n' + p.stderr
+        m = re.search(r'test result: (\w+)\. (\d+) passed; (\d+) failed', out)
+        if m:
+            res.append({'test': t, 'ok': m.group(1) == 'ok', 'passed': int(m.group(2)), 'failed': int(m.group(3)),
+                        'failed_cases': re.findall(r'^test (\S+) \.\.\. FAILED', out, re.M), 'output': out[-6000:]})
+        else:
+            # did not build or did not run: not a verdict
+            res.append({'test': t, 'ok': None, 'passed': 0, 'failed': 0, 'failed_cases': [], 'output': out[-3000:]})
+    _REPLAY_CACHE[(pid, repo)] = res
+    return res
+
+
+def run_falsifier(pid, name, repo):
+    """native replay for a failed obligation: (found_failing_input, text)"""
+    res = run_replays(pid, repo)
+    if not res:
+        return False, 'no native replay registered for this property'
+    found = any(r['ok'] is False for r in res)
+    txt = '\n'.join('$ tools/replay.sh %s %s\n%s' % (repo, r['test'], r['output']) for r in res if r['ok'] is not True) or \
+        'all native replays of this property pass on this tree: ' + ', '.join(r['test'] for r in res)
+    return found, txt
 
 
 if __name__ == '__main__':
